@@ -120,6 +120,20 @@ class C10(Check):
                     res.add("learn-reward", "wrong-batch",
                             f"{tag}learn #{k} for action {ga} got reward {gr!r}, the batch's own outcome gives {wr!r}; learned={got} expected={want}")
                     break
+        a = r.cfg["agent"] if hasattr(r, "cfg") else None
+        if a and a.get("kind") == "eps" and r.final_counts and len(got) == len(want) and not res.violations:
+            # what the agent has become: exactly what the executed batches teach it - an action it chose but that never ran
+            # (the pending one dropped at a session end) leaves no trace
+            from sim.props.c19 import RefBandit
+            ref = RefBandit(len(r.final_counts), a["alpha"], a.get("init", 0.0))
+            for (wa, wr) in want:
+                ref.learn(wa, wr)
+            if list(r.final_counts) != ref.c:
+                res.add("agent-state", "visit-counts", f"{tag}after the exchange the agent's visit counts are {list(r.final_counts)}; the executed "
+                                                       f"batches it learned from give {ref.c} (learned={want})")
+            elif any(not math.isclose(x, y, rel_tol=1e-9, abs_tol=1e-12) for x, y in zip(r.final_q, ref.q)):
+                res.add("agent-state", "estimates", f"{tag}after the exchange the agent's estimates are {list(r.final_q)}; the executed batches "
+                                                    f"it learned from give {ref.q} (learned={want})")
         for (si, inq, outq, live) in r.leftovers:
             if inq or outq:
                 res.add("leftover", "in" if inq else "out",
